@@ -194,7 +194,7 @@ _CLOCKY = {}
 def _clock_reachers(F):
     """canonical paths of quinn-proto functions / closures from which a clock or entropy leaf is reachable over resolved
     calls (closures attributed to their parent, component boundaries not crossed) — unbounded depth"""
-    k = id(F)
+    k = F.uid
     if k in _CLOCKY:
         return _CLOCKY[k]
     direct = set()
@@ -281,7 +281,7 @@ def _timer_arg_may_be(d, name):
 def _timer_armers(F, name):
     """ids of the root functions of quinn-proto from which a `TimerTable::set(<may be Timer::name>, ..)` is reachable over
     resolved crate-local calls (closures attributed to their parent) — unbounded depth"""
-    k = (id(F), name)
+    k = (F.uid, name)
     if k in _ARMERS:
         return _ARMERS[k]
     direct, rev = set(), {}
